@@ -423,7 +423,12 @@ def _chained_assignment_rule(ctx, res) -> None:
                         return True
         return False
 
-    predicates = {name for name, m in cls.methods.items() if name != f.name and counts_targets(m.node)}
+    # (the count itself may sit in a private step of the predicate)
+    def answers_only(m) -> bool:  # a step that emits text is no predicate, whatever it asks on the way
+        return not any(is_self_attr(x, "setter") or (isinstance(x, ast.Call) and call_name(x) == "append") for x in ast.walk(m.node))
+
+    predicates = {name for name, m in cls.methods.items() if name != f.name and (counts_targets(m.node) or (
+        answers_only(m) and any(counts_targets(h.node) and answers_only(h) for h in common.with_private_helpers(idx, m, depth=1)[1:] if h.cls is cls and h.name != f.name)))}
     # the emission may be a private step; the predicates stay calls
     fnode = common.inline_private_calls(idx, f, keep=tuple(predicates))
     cfg = CFG(fnode)
@@ -519,7 +524,17 @@ def _chained_assignment_rule(ctx, res) -> None:
         pm = cls.methods[pname]
         own = line_ends(pm.node)
         params = param_names(pm.node)
-        for c in ast.walk(pm.node):
+        # (the search for the statement may be a private step of the predicate: its bounds are what the predicate hands in)
+        steps = [h for h in common.with_private_helpers(idx, pm, depth=1)[1:] if h.cls is cls]
+        step_bounds = {}
+        for h in steps:
+            hp = param_names(h.node)
+            for x in calls_in(pm.node):
+                if is_self_attr(x.func) and x.func.attr == h.name:
+                    for j, a in enumerate(x.args):
+                        if j + 1 < len(hp) and isinstance(a, ast.Name) and a.id in own:
+                            step_bounds[(h.name, hp[j + 1])] = own[a.id]
+        for owner, c in [(pm, c) for c in ast.walk(pm.node)] + [(h, c) for h in steps for c in ast.walk(h.node)]:
             if not (isinstance(c, ast.Compare) and len(c.ops) == 2 and all(isinstance(o, (ast.LtE, ast.Lt)) for o in c.ops)
                     and isinstance(c.comparators[0], ast.Attribute) and c.comparators[0].attr == "lineno"):
                 continue
@@ -527,14 +542,19 @@ def _chained_assignment_rule(ctx, res) -> None:
             for bound, want, what in ((lo, 0, "lower"), (hi, 1, "upper")):
                 k += 1
                 got = None
-                if isinstance(bound, ast.Name) and bound.id in own:
+                if owner is not pm:
+                    got = step_bounds.get((owner.name, bound.id)) if isinstance(bound, ast.Name) else None
+                elif isinstance(bound, ast.Name) and bound.id in own:
                     got = own[bound.id]
                 elif isinstance(bound, ast.Name) and bound.id in params:
                     # what the callers hand in
                     pos = params.index(bound.id) - 1  # without self
-                    callers = [x for x in ast.walk(inl) if isinstance(x, ast.Call) and is_self_attr(x.func) and x.func.attr == pname]
-                    ends_ = line_ends(inl)
-                    vals = {ends_.get(x.args[pos].id) if pos < len(x.args) and isinstance(x.args[pos], ast.Name) else None for x in callers}
+                    vals = set()
+                    for body in [inl] + [m.node for mn, m in sorted(cls.methods.items()) if mn not in (pname, f.name)]:
+                        ends_ = line_ends(body)
+                        for x in ast.walk(body):
+                            if isinstance(x, ast.Call) and is_self_attr(x.func) and x.func.attr == pname:
+                                vals.add(ends_.get(x.args[pos].id) if pos < len(x.args) and isinstance(x.args[pos], ast.Name) else None)
                     got = vals.pop() if len(vals) == 1 else None
                 ok = got == want
                 res.add("R17.16", f"{pname}|{what}-bound-is-the-{'start' if want == 0 else 'end'}-of-the-logical-line", ok, f"{pm.unit.rel}:{c.lineno}",
@@ -544,3 +564,22 @@ def _chained_assignment_rule(ctx, res) -> None:
                         "`table[\n    row, col\n] = item.value = item.value - 4` -- the statement starts two lines above the field -- is not recognised as chained and becomes "
                         "`] = item.set_value(...)`: `table[row, col]` receives None", function=pm.qualname)
     res.floor("R17.16", "bounds of the examined lines", k, 2)
+    # (c) EVERY assignment statement of the logical line is asked (`count = 0; last = box.value = 7`): a search over the tree that hands
+    # back the first assignment in the range decides for the statement in front of the chained one
+    for pname in sorted(predicates):
+        pm = cls.methods[pname]
+        for h in common.with_private_helpers(idx, pm, depth=1):
+            hcfg = None
+            for lp in walk_local(h.node):
+                if not (isinstance(lp, ast.For) and isinstance(lp.target, ast.Name) and any(isinstance(x, ast.Call) and call_name(x) == "walk" for x in ast.walk(lp.iter))):
+                    continue
+                for r in ast.walk(lp):
+                    if isinstance(r, ast.Return) and isinstance(r.value, ast.Name) and r.value.id == lp.target.id:
+                        hcfg = hcfg or CFG(h.node)
+                        nd = hcfg.node_of_stmt(r)
+                        counted = nd is not None and any(counts_targets(t) for t, _ in hcfg.guards(nd.id))
+                        res.add("R17.16", f"{h.name}|every-assignment-of-the-line-is-asked", counted, f"{h.unit.rel}:{r.lineno}",
+                                "the statement handed back was chosen by its number of targets" if counted else
+                                f"{h.name} hands back the FIRST assignment statement in the examined lines, and the number of targets is asked of that one alone: in "
+                                "`count = 0; last = box.value = 7` the plain `count = 0` answers for the line, the chained write is not refused and becomes "
+                                "`last = box.set_value(7)` -- `last` is None afterwards", function=h.qualname)
